@@ -479,6 +479,8 @@ class Check:
 
 def quantize_int(x: float, tol: float = 1e-6):
     """Return the nearest integer if x is within tol*(1+|x|) of it, else None."""
+    if x != x or x in (float("inf"), float("-inf")):       # not a number / infinite: not an integer
+        return None
     r = round(x)
     if abs(x - r) <= tol * (1 + abs(x)):
         return int(r)
